@@ -290,6 +290,18 @@ func runC07(r *core.Run) {
 			}
 		case 6: // event log as a stream and as a file
 			l, o := corruptN(r, logBytes, spBytes, "event-log")
+			if r.Chance(15, "signature-only-event?") {
+				// a genuine log followed by an event whose data is a well-known TCG event signature
+				// and nothing (or next to nothing) else
+				sigs := []string{"SP800-155 Event3", "StartupLocality\x00", "Spec ID Event03\x00", "SP800-155 Event\x00", "TCG_EfiSpecIDEven"}
+				sig := []byte(sigs[r.Intn(len(sigs), "event-signature")])[:16]
+				extra := []byte{0, 0, 0, 0}[:r.Intn(3, "signature-extra")]
+				ev := &eventlog.TCGPCREvent2{PCRIndex: 0, EventType: 3, EventData: eventlog.TCGEventData{Event: &eventlog.UnknownEvent{Data: append(append([]byte(nil), sig...), extra...)}}}
+				var b bytes.Buffer
+				if err := ev.Marshal(&b); err == nil {
+					l, o = append(append([]byte(nil), logBytes...), b.Bytes()...), fmt.Sprintf("field:event=%q+%d", sig, len(extra))
+				}
+			}
 			l = r.Blob(fmt.Sprintf("in%d", i), func() []byte { return l })
 			ops, inputLen = o, len(l)
 			if r.Bool("log-via-file") {
